@@ -134,4 +134,45 @@ def mdIsoCheck (d e : MeshData) (φ : Nat → Nat) (psi : Array Nat) : Bool :=
     | .ok v => decide (v < d.v2d.size) && decide (psi[v]! < e.v2d.size) && d.v2d[v]! == e.v2d[psi[v]!]!
     | .error _ => false
 
+/-- `OppInvol`: `Opposite` of the view is an involution where it is defined -/
+def oppInvolCheck (t : TView) : Bool :=
+  (List.range (3 * t.numFaces)).all fun c =>
+    match t.opposite c with
+    | .ok o => o == inv || resEq (t.opposite o) (.ok c)
+    | .error _ => true
+
+/-- `Hedge`: the corner opposite an edge lies in a face that has the two vertices of the edge -/
+def hedgeCheck (t : TView) : Bool :=
+  (List.range (3 * t.numFaces)).all fun c =>
+    match t.opposite c with
+    | .ok o => o == inv ||
+        (resEq (t.vertex (Eb.nextC o)) (t.vertex (Eb.prevC c)) && resEq (t.vertex (Eb.prevC o)) (t.vertex (Eb.nextC c)))
+    | .error _ => true
+
+/-- the hypotheses of `eb_value_block_conditional_iso` for the value block `b` of the encoder against the decoder's
+    view `viewD`, its sequence `seqD` and parent `parentD`: isomorphism of the VIEWS under the corner map `φ`
+    (candidate maps `psi`, `back`, `cback`), the two structural properties of the decoder's view, and the side
+    conditions of the block.  (Block invariance and the isomorphism of the sequences are no longer hypotheses: they
+    follow from `traversal_mdIso` and `encodeSchemeBlock_iso`.)  Result: the names of the hypotheses that FAIL. -/
+def valueBlockHypsIso (ch : EbChoices) (o : SeqEnc.EncOpts) (b : ValueBlock) (viewD : TView) (seqD : SeqOut)
+    (parentD : Option Parent) (φ : Nat → Nat) (psi back cback : Array Nat) : List String :=
+  let s := effectiveScheme b.scheme b.portable
+  let n := seqD.pointIds.size
+  let mdD : MeshData := { t := viewD, d2c := seqD.d2c, v2d := seqD.v2d }
+  let bad (c : Bool) (name : String) : List String := if c then [] else [name]
+  bad (tvIsoCheck viewD b.md.t φ psi back cback) "tvIso" ++
+  bad (hedgeCheck viewD) "hedge" ++
+  bad (oppInvolCheck viewD) "oppInvol" ++
+  bad (b.numValues != 0) "numValues" ++
+  bad (schemeKindOk b.kind b.scheme) "schemeKind" ++
+  (match encParentSource s b.pointIds b.parent with
+   | .ok posE => bad (decParentOk s parentD seqD.pointIds posE) "decParent"
+   | .error _ => []) ++
+  bad (decide (0 < b.nc) && decide (0 < n) && b.portable.size == n * b.nc && mdD.d2c.size == n &&
+       decide (n * b.nc < 2 ^ 32)) "sizes" ++
+  bad (int32All b.portable) "int32" ++
+  bad (b.kind != 3 || normalsOk o b.attId b.nc n b.portable) "normals" ++
+  bad (decide (3 * viewD.numFaces + 3 < 2 ^ 31) && decide (n ≤ 3 * viewD.numFaces)) "corners" ++
+  bad (!(b.scheme == .constrainedMulti) || creaseCountOk ch b.attId b.nc mdD b.portable) "creaseCount"
+
 end Draco.EbEnc
